@@ -1386,6 +1386,37 @@ pub fn check_consumer(c: &ConsumerCase, l: &mut Local) -> Result<(), Fail> {
 
 // ---------------------------------------------------------------------------
 
+/// Faults of entry `i` of the NTT prime/root table (empty = fine).
+fn ntt_entry_faults(table: &[(u64, u64)], i: usize) -> Vec<String> {
+    let mulmod = |a: u64, b: u64, p: u64| ((a as u128 * b as u128) % p as u128) as u64;
+    let (p, w) = table[i];
+    let mut bad: Vec<String> = vec![];
+    if !crate::oracle::int::ref_isprime64(p) {
+        bad.push("p is not prime".into());
+    }
+    if p & 0xffff_ffff != 1 {
+        bad.push("p is not 1 mod 2^32".into());
+    }
+    if (table.len() as u128) * (p as u128) >= 1u128 << 64 {
+        bad.push("count * p does not fit in 64 bits".into());
+    }
+    if i > 0 && table[i - 1].0 >= p {
+        bad.push("primes not strictly increasing".into());
+    }
+    if w == 0 || w >= p {
+        bad.push("root not reduced".into());
+    }
+    // w^(2^31) = -1 (hence order exactly 2^32)
+    let mut x = w % p.max(2);
+    for _ in 0..31 {
+        x = mulmod(x, x, p);
+    }
+    if x != p - 1 {
+        bad.push(format!("w^(2^31) = {} is not -1: the order of w is not 2^32", x));
+    }
+    bad
+}
+
 fn record(ctx: &Ctx, check: &str, f: &Fail, case: Value) {
     if f.class.starts_with("HARNESS|") {
         ctx.selfcheck_failed(&format!("{}: {}", check, f.what));
@@ -1577,6 +1608,25 @@ fn run(ctx: &Ctx) {
     );
     }
     lap("params generated");
+
+    // ---------------- the precomputed roots of the multi-prime NTT ("transform sizes fit the precomputed roots"):
+    // every table entry (p, w) must be a prime p = 1 mod 2^32 below 2^59 with w of order exactly 2^32 modulo p,
+    // the primes distinct and increasing (the first w of them are taken, and w * p_w < 2^64 is asserted)
+    if want("stage2") {
+        let mut l = Local::new();
+        let table = arith_fft::verif_ntt_table();
+        for (i, &(p, w)) in table.iter().enumerate() {
+            l.case();
+            l.label("ntt-table:entry");
+            l.nontrivial(hash64(&("ntt-table", p, w)));
+            let bad = ntt_entry_faults(&table, i);
+            for b in bad {
+                let f = fail("ntt-table", "root-of-unity", format!("NTT table entry {} (p = {:#x}, w = {:#x}): {}", i, p, w, b));
+                record(ctx, "stage2", &f, json!({"ntt_entry": i, "p": p, "w": w}));
+            }
+        }
+        ctx.merge(l);
+    }
 
     // ---------------- stage 2 tables
     if want("stage2") {
@@ -1872,6 +1922,17 @@ fn run(ctx: &Ctx) {
 fn replay(_ctx: &Ctx, check_name: &str, case: &Value) -> Result<(), Fail> {
     match check_name {
         "params" => replay_as::<ParamCase>(case, check_params),
+        "stage2" if case.get("ntt_entry").is_some() => {
+            let table = arith_fft::verif_ntt_table();
+            let i = case["ntt_entry"].as_u64().unwrap_or(0) as usize;
+            if i >= table.len() {
+                return Ok(());
+            }
+            match ntt_entry_faults(&table, i).into_iter().next() {
+                None => Ok(()),
+                Some(b) => Err(fail("ntt-table", "root-of-unity", format!("NTT table entry {} (p = {:#x}, w = {:#x}): {}", i, table[i].0, table[i].1, b))),
+            }
+        }
         "stage2" => replay_as::<Stage2Case>(case, check_stage2),
         "dispatch" => replay_as::<DispatchCase>(case, check_dispatch),
         "strategy" => replay_as::<StrategyCase>(case, check_strategy),
